@@ -44,12 +44,16 @@ structure ARec where
   sup : Option Nat := none
   isSup : Bool := false
   fut : Fut := .pending
-  /-- the harness holds the `Mailbox` and the `ActorHandle` -/
+  /-- the harness holds the `Mailbox` -/
   has : Bool := false
+  /-- the harness holds the `ActorHandle` -/
+  handle : Bool := false
   /-- length of `st.log` already printed -/
   reported : Nat := 0
-  startedSent : Bool := false
-  exitSent : Bool := false
+  /-- number of `st.notified` entries already sent to the supervisor -/
+  noted : Nat := 0
+  /-- supervisors only: the handler keeps the `Mailbox` of every child it hears of in its state -/
+  keeps : Bool := false
 
 structure GRec where
   id : Nat
@@ -60,7 +64,8 @@ structure GRec where
 
 /-- where a call went: accepted by an actor, or rejected at once -/
 inductive CallTarget where
-  | at (a : Nat)
+  /-- accepted by actor `a`; `direct`: sent through a `Mailbox` the call future owns (not through a group) -/
+  | at (a : Nat) (direct : Bool)
   | rejected (r : Res)
 
 structure W where
@@ -94,7 +99,7 @@ def showSend : SendRes → String
 /-! ### harness operations while the worker is frozen -/
 
 def W.spawn (w : W) (a : Nat) (name : Option String) (cap : Nat) (sup : Option Nat)
-    (sc : Script) (isSup : Bool) : String × W :=
+    (sc : Script) (isSup : Bool) (keeps : Bool := false) : String × W :=
   match w.actor? a with
   | some _ => ("dup", w)
   | none =>
@@ -106,10 +111,10 @@ def W.spawn (w : W) (a : Nat) (name : Option String) (cap : Nat) (sup : Option N
       | none => ("nametaken", w)        -- `SpawnFuture::ready(Err(NameTaken))`: nothing was created
       | some reg =>
         ("pending", { w with reg := reg, actors := w.actors ++
-          [{ id := a, st := St.init cap true, sc := sc, name := name, sup := sup, isSup := isSup }] })
+          [{ id := a, st := St.init cap true, sc := sc, name := name, sup := sup, isSup := isSup, keeps := keeps }] })
     | none =>
       ("pending", { w with actors := w.actors ++
-          [{ id := a, st := St.init cap false, sc := sc, sup := sup, isSup := isSup }] })
+          [{ id := a, st := St.init cap false, sc := sc, sup := sup, isSup := isSup, keeps := keeps }] })
 
 def W.await (w : W) (a : Nat) : String × W :=
   match w.actor? a with
@@ -120,7 +125,7 @@ def W.await (w : W) (a : Nat) : String × W :=
     if r.st.startReported then ("startfail", w.setActor { r with fut := .resolved }) else
     match r.st.pc with
     | .init | .failRelease | .failReport | .failReturn | .startFailed | .preStarted => ("pending", w)
-    | _ => ("started", w.setActor { r with fut := .resolved, has := true })
+    | _ => ("started", w.setActor { r with fut := .resolved, has := true, handle := true })
 
 def W.dropFut (w : W) (a : Nat) : String × W :=
   match w.actor? a with
@@ -131,18 +136,18 @@ def W.dropFut (w : W) (a : Nat) : String × W :=
     | some st => ("ok", w.setActor { r with fut := .dropped, st := st })
     | none => ("ok", w.setActor { r with fut := .dropped })
 
-def W.send (w : W) (a : Nat) (it : Item) : String × W :=
+def W.send (w : W) (a : Nat) (it : Item) (direct : Bool := true) : String × W :=
   match w.actor? a with
   | none => ("nomailbox", w)
   | some r =>
-    if !r.has then ("nomailbox", w) else
+    if direct && !r.has then ("nomailbox", w) else
     match sendNow r.st it with
     | none => ("nomailbox", w)
     | some (res, st) =>
       let w := w.setActor { r with st := st }
       if it.call then
         let w := { w with calls := w.calls ++ [(it.id, match res with
-          | .ok => CallTarget.at a | .full => CallTarget.rejected Res.full | .closed => CallTarget.rejected Res.closed)] }
+          | .ok => CallTarget.at a direct | .full => CallTarget.rejected Res.full | .closed => CallTarget.rejected Res.closed)] }
         ((match res with | .ok => "sent" | .full => "full" | .closed => "closed"), w)
       else (showSend res, w)
 
@@ -150,7 +155,7 @@ def W.poll (w : W) (c : Nat) : String :=
   match ((w.calls.find? (·.1 == c)).map (·.2) : Option CallTarget) with
   | none => "nocall"
   | some (CallTarget.rejected r) => (match r with | .full => "full" | .closed => "closed" | .noReply => "noreply" | .reply v => s!"reply {v}")
-  | some (CallTarget.at a) =>
+  | some (CallTarget.at a _) =>
     match w.actor? a with
     | none => "nocall"
     | some r =>
@@ -192,10 +197,49 @@ def W.exit (w : W) (a : Nat) : String :=
   match w.actor? a with
   | none => "nomailbox"
   | some r =>
-    if !r.has then "nomailbox" else
+    if !r.handle then "nomailbox" else
     match r.st.pc with
     | .exited e => showExit e
     | _ => "pending"
+
+/-- the harness drops its `Mailbox` of `a` (it keeps the `ActorHandle`) -/
+def W.dropMailbox (w : W) (a : Nat) : String × W :=
+  match w.actor? a with
+  | none => ("nomailbox", w)
+  | some r => if !r.has then ("nomailbox", w) else ("ok", w.setActor { r with has := false })
+
+/-! ### who still holds a sender of an actor's channel (once the task itself is gone) -/
+
+/-- supervision events a supervisor handled, as `(child, kind)` -/
+def supEvents (log : List Obs) : List (Nat × Nat) :=
+  log.filterMap fun
+    | .hs m => if m ≥ 1000000 then some ((m - 1000000) / 4, (m - 1000000) % 4) else none
+    | _ => none
+
+def W.held (w : W) (r : ARec) : Bool :=
+  -- the harness' `Mailbox`, or the one inside its pending `SpawnFuture`
+  r.has || r.fut == .pending ||
+  -- a `Broker` inside a process group
+  w.groups.any (fun g => g.owner.any fun p => p.2 == r.id && g.g.members.contains p.1) ||
+  -- a direct call still waiting: its future owns a `Mailbox`
+  w.calls.any (fun c => match c.2 with
+    | .at a direct => direct && a == r.id && (r.st.callResult c.1).isNone
+    | .rejected _ => false) ||
+  -- a supervisor that keeps the mailboxes it is told about, while its task lives
+  w.actors.any (fun s => s.isSup && s.keeps && !s.st.pc.isExited &&
+    (supEvents s.st.log).any (·.1 == r.id))
+
+/-- flume frees a channel when its last sender goes: queued `Call`s are dropped, their callers get `NoReply` -/
+def W.reap (w : W) : W :=
+  w.actors.foldl (fun w r =>
+    match w.actor? r.id with
+    | none => w
+    | some r =>
+      if r.st.chanAlive && !w.held r then
+        match step r.st .dropSenders with
+        | some st => w.setActor { r with st := st }
+        | none => w          -- the task still runs: it holds `myself`
+      else w) w
 
 /-! ### process groups -/
 
@@ -240,7 +284,7 @@ def W.gsend (w : W) (g : Nat) (it : Item) : String × W :=
       | none => ("panic", { w with panicked := true })
       | some a =>
         -- the accepting member's `Broker::send` is the ordinary mailbox send
-        let (out, w) := w.send a it
+        let (out, w) := w.send a it false
         (out, w)
     | .full =>
       let w := if it.call then { w with calls := w.calls ++ [(it.id, CallTarget.rejected Res.full)] } else w
@@ -282,27 +326,14 @@ def W.syncReg (w : W) (name : Option String) (a : Nat) (before after : Tok) : W 
       else w
     if after == .dropped && before != .dropped then { w with reg := Registry.release w.reg n } else w
 
-def hasPostStartOk (log : List Obs) : Bool := log.any (· == .hook .postStart true)
-
 def W.settleActor (w : W) (a : Nat) : W :=
   match w.actor? a with
   | none => w
   | some r =>
     let st := settle r.sc (settleFuel r.st) r.st
-    let w := (w.setActor { r with st := st }).syncReg r.name a r.st.tok st.tok
-    -- supervision events, in program order: started (after post_start), then terminated / failed
-    let (w, ss) :=
-      if !r.startedSent && hasPostStartOk st.log then (w.notify r.sup a 0, true) else (w, r.startedSent)
-    let (w, es) :=
-      match st.pc with
-      | .exited e =>
-        if !r.exitSent && !st.detached then
-          (w.notify r.sup a (match e with | .stopped => 1 | .failed _ => 2), true)
-        else (w, r.exitSent)
-      | _ => (w, r.exitSent)
-    match w.actor? a with
-    | none => w
-    | some r' => w.setActor { r' with startedSent := ss, exitSent := es }
+    let w := (w.setActor { r with st := st, noted := st.notified.length }).syncReg r.name a r.st.tok st.tok
+    -- the supervision notifications the task issued (`St.notified`), in program order
+    (st.notified.drop r.noted).foldl (fun w k => w.notify r.sup a k) w
 
 def W.settleAll (w : W) : W := (w.actors.map (·.id)).foldl W.settleActor w
 
@@ -313,12 +344,6 @@ def showObs : Obs → String
   | .hook .postStop ok => "pt" ++ (if ok then "+" else "-")
   | .hs m => s!"h{m}"
   | .he m ok => s!"e{m}" ++ (if ok then "+" else "-")
-
-/-- supervision events a supervisor handled, as `(child, kind)` -/
-def supEvents (log : List Obs) : List (Nat × Nat) :=
-  log.filterMap fun
-    | .hs m => if m ≥ 1000000 then some ((m - 1000000) / 4, (m - 1000000) % 4) else none
-    | _ => none
 
 def insertBy (p : Nat × Nat) : List (Nat × Nat) → List (Nat × Nat)
   | [] => [p]
